@@ -398,6 +398,7 @@ package lua
 //@ logged pre: ls.reg.array[top(ls)-nargs-1], ls.reg.array[top(ls)-nargs], ls.reg.array[top(ls)-nargs+1], ls.reg.array[top(ls)-nargs+2]; post: ls.reg.array[old(top(ls))-nargs-1]
 //@ requires Inv_api(ls) && nargs >= 0 && top(ls) - base(ls) >= nargs + 1
 //@ ensures  Inv_api(ls) && ls.reg == old(ls.reg) && ls.currentFrame == old(ls.currentFrame) && base(ls) == old(base(ls)) && ls.G == old(ls.G)
+//@ ensures  ls.stack == old(ls.stack) && (old($inv(ls.stack)) ==> $inv(ls.stack) && $sp(ls.stack) == old($sp(ls.stack))) && ls.Panic == old(ls.Panic) && (old(uvsValid(ls)) ==> uvsValid(ls))
 //@ ensures  nret >= 0 ==> top(ls) == old(top(ls)) - nargs - 1 + nret
 //@ ensures  nret < 0 ==> top(ls) >= old(top(ls)) - nargs - 1
 //@ ensures  forall k int :: base(ls) <= k && k < old(top(ls)) - nargs - 1 ==> ls.reg.array[k] == old(ls.reg.array[k])
@@ -415,3 +416,36 @@ package lua
 //@ loop 1 invariant rg.top == ite(top < old(rg.top) - 1, old(rg.top) + 1, old(rg.top)) && (top == old(rg.top) - 1 ==> cap(rg.array) == old(cap(rg.array)))
 //@ loop 1 invariant forall k int :: top + 1 < k && k <= old(rg.top) ==> rg.array[k] == old(rg.array[k-1])
 //@ loop 1 invariant forall k int :: 0 <= k && k <= top ==> rg.array[k] == old(rg.array[k])
+
+// ---------------------------------------------------------------------------
+// Error containment (C05): the deferred recovery closure of PCall as a defer unit (DESIGN.md §4.9). Its free variables
+// ls, oldpanic, err, errfunc, sp, base are the captured locals of PCall. What it guarantees holds on EVERY exit of
+// PCall, for every state at the moment of the panic that satisfies the listed assumptions.
+// ---------------------------------------------------------------------------
+
+//@ extern fmt.Sprint
+//@ assume fmt.Sprint does not touch interpreter state
+//@ noraise
+//@ modifies nothing
+//@ extern runtime.Stack
+//@ noraise
+//@ modifies nothing
+//@ extern strings.Trim
+//@ noraise
+//@ modifies nothing
+//@ trusted (*LState).stackTrace
+//@ assume stackTrace only reads the call stack
+//@ noraise
+//@ modifies nothing
+
+//@ func (*LState).PCall$1 [C05 C10 C12]
+//@ assume PCall recovery: at the moment the deferred closure runs the call-stack depth is at least the depth at PCall entry (sp <= Sp()), base <= top, and the registry/call-stack representation invariants hold (whole-execution facts, assumed)
+//@ requires ls != nil && ls.reg != nil && Inv_reg(ls.reg) && ls.stack != nil && $inv(ls.stack) && 0 <= sp && sp <= $sp(ls.stack) && 0 <= base && base <= ls.reg.top && ls.G != nil
+//@ ensures  "panic-mode-restored": ls.Panic == oldpanic
+//@ ensures  "depth-restored": $sp(ls.stack) == sp && (sp == 0 ==> ls.currentFrame == nil)
+//@ requires uvsValid(ls)
+//@ assert@"if sp == 0 {" rcv != nil ==> ls.reg.top == base && err != nil
+// C03 on the error path: before the registers from base upwards are released, the upvalues pointing at them are closed
+// (closeUpvalues(base) is recorded in the ghost call log on every recovered-error path; what closeUpvalues does is its own contract)
+//@ assert@"if sp == 0 {" rcv != nil ==> ncalls() >= 1 && callfn(ncalls() - 1) == fnid("(*LState).closeUpvalues") && callargInt(ncalls() - 1, 1) == base
+//@ modifies everything
